@@ -83,17 +83,38 @@ theorem C31_strslice_resplit_witness :
 
 /-! ### render / parse -/
 
-/-- Reading a rendered document gives it back, for every document whose keys are bare keys, whose
-table names contain no `]`, whose strings consist of `charOK` characters, whose integers fit int64 and
+/-- Rendering a document to text (lines joined by LF), splitting the text at LF and parsing the lines
+gives the document back, for every document whose keys are bare keys (no blank, `[`, LF), whose table
+names contain no `]` / LF, whose strings consist of `charOK` characters, whose integers fit int64 and
 whose floats are decimal tokens (`docOK`). -/
 theorem C31_render_parse_partial (d : Doc) (h : docOK d) :
-    parseDoc (renderDoc d) = Spec.readBack d :=
-  parseDoc_renderDoc d h
+    parseDoc (splitLines (joinLines (renderDoc d))) = Spec.readBack d :=
+  parseText_renderText d h
 
-/-- Lines survive being joined with LF and split again when none contains a raw LF. -/
-theorem C31_lines (ls : List Str) (h : ∀ l ∈ ls, ∀ c ∈ l, c ≠ '\n') :
-    splitLines (joinLines ls) = ls :=
-  splitLines_joinLines ls h
+/-- `docOK` is satisfiable by a document with every kind of value, a table, quotes, backslashes,
+newlines, control characters, Unicode, negative and extreme integers, an empty list and a list with a
+comma element. -/
+example : docOK ⟨[⟨['d', '-', 'k'], .str ['a', '"', '\\', '\n', '\x01', 'é']⟩, ⟨['n'], .int (-9223372036854775808)⟩],
+    [(['t', 'l', 's'], [⟨['b'], .bool true⟩, ⟨['f'], .float ['0', '.', '5']⟩,
+      ⟨['l'], .strs [['a', ','], []]⟩, ⟨['m'], .int 9223372036854775807⟩, ⟨['e'], .strs []⟩])]⟩ := by
+  refine ⟨?_, ?_⟩
+  · intro e he
+    simp only [mem_cons, not_mem_nil, or_false] at he
+    rcases he with rfl | rfl
+    · exact ⟨⟨by decide, by decide⟩, by intro c hc; revert c; decide⟩
+    · exact ⟨⟨by decide, by decide⟩, by simp only [valOK]; omega⟩
+  · intro t ht
+    simp only [mem_singleton] at ht
+    subst ht
+    refine ⟨⟨by decide, by decide⟩, ?_⟩
+    intro e he
+    simp only [mem_cons, not_mem_nil, or_false] at he
+    rcases he with rfl | rfl | rfl | rfl | rfl
+    · exact ⟨⟨by decide, by decide⟩, trivial⟩
+    · exact ⟨⟨by decide, by decide⟩, by simp only [valOK]; decide⟩
+    · exact ⟨⟨by decide, by decide⟩, by intro x hx c hc; revert c; revert x; decide⟩
+    · exact ⟨⟨by decide, by decide⟩, by simp only [valOK]; omega⟩
+    · exact ⟨⟨by decide, by decide⟩, by intro x hx; cases hx⟩
 
 /-- Every string of quotes, backslashes, control characters (except U+001F), DEL, Latin-1, BMP and
 astral characters with low 16 bits >= 0x1F is covered: -/
